@@ -100,7 +100,7 @@ def _cfg_for(name):
         a = pl.ADAPTERS[name]
         out = []
         for n in ([3] if tier == "quick" else [3, 4]):
-            for b in ([1, 2] if tier == "quick" else [1, 2, 3]):
+            for b in [1, 2, 3]:
                 if getattr(a, "slow", False) and (n > 3 or tier == "quick" and b > 1):
                     continue
                 out.append(dict(strat=name, n=n, b=b))
@@ -111,7 +111,7 @@ def _cfg_for(name):
 HARNESSES = [Harness(f"loop[{name}]", sym, replay, _cfg_for(name), pl.BASE_UNITS + a.units,
                      product_abstraction=a.product_abstraction, required_witnesses=("two_cycles", "cold_start"))
              for name, a in pl.ADAPTERS.items()]
-BOUNDS = dict(quick="pools of n = 3 samples, every initial labeling (0..n-1 labels), batch sizes 1 and 2, the whole loop until "
+BOUNDS = dict(quick="pools of n = 3 samples, every initial labeling (0..n-1 labels), batch sizes 1-3, the whole loop until "
                     "exhaustion, one strategy object across cycles, fresh symbolic model outputs per cycle",
               thorough="n in {3,4}, batch sizes 1..3",
               outside="strategies not in the adapter list (ProbCover / EpistemicUS caches are therefore not covered); n > 4")
